@@ -457,7 +457,7 @@ func checkC18(c C18Case, st *Stats) error {
 	return err
 }
 
-var propC18 = Register(Prop[C18Case]{ID: "C18", Name: "C18", Check: checkC18})
+var propC18 = Register(Prop[C18Case]{ID: "C18", Name: "C18", Pending: true, Check: checkC18})
 
 func TestC18Rapid(t *testing.T) {
 	p := propC18
